@@ -519,7 +519,7 @@ class Element(UnicodeMixin):
         """
         parts = [p for p in path.split("/") if p]
         if len(parts) == 1:
-            return self.getChildren(path)
+            return self.getChildren(parts[0])
         return self.__childrenAtPath(parts)
 
     def getChildren(self, name=None, ns=None):
